@@ -138,3 +138,42 @@ def reserve_arg_sets():
     add(w)
     add(N.IRMemRead("r1", "signal-B"))
     return cases
+
+
+# =================================================================================================
+# SignalAnalyzer._build_available_signal_pool: the pool never contains the reserved write-enable signal, a wildcard, a
+# signal already allocated / mapped, or a name the program references — and contains every other virtual signal once.
+# The reserved and wildcard names are stated HERE (Factorio's signal-each / -anything / -everything; the compiler's
+# signal-W), not read from the compiler's tables.  Evaluated on the real method over enumerated analyser states: bounded.
+# =================================================================================================
+_NEVER = {"signal-W", "signal-each", "signal-anything", "signal-everything"}
+
+
+def _pool_post(a, res):
+    me = a.self
+    pool = list(res)
+    banned = _NEVER | set(me._allocated_signals) | set(me.referenced_signal_names)
+    if any(s in banned for s in pool) or len(pool) != len(set(pool)):
+        return False
+    from dsl_compiler.src.layout import signal_analyzer as _sa
+    universe = [s for s in _sa.AVAILABLE_VIRTUAL_SIGNALS]
+    return set(pool) == {s for s in universe if s not in banned}
+
+
+pool_contract = Contract(qualname=SA + "_build_available_signal_pool", params={"self": ty.TOpaque("analyzer")},
+                         ensures=[("the pool = the virtual signals minus reserved, wildcards, allocated and referenced names, without repetition", _pool_post)],
+                         verify=False, properties=("C13",), note="evaluated on the real method over enumerated analyser states (bounded stand-in)")
+CONTRACTS.append(pool_contract)
+
+
+def pool_arg_sets():
+    from dsl_compiler.src.common.diagnostics import ProgramDiagnostics
+    from dsl_compiler.src.layout.signal_analyzer import SignalAnalyzer
+    out = []
+    for allocated in (set(), {"signal-A"}, {"signal-A", "signal-Z", "signal-W"}):
+        for referenced in (set(), {"signal-B"}, {"x", "signal-C", "signal-each"}):
+            for tmap in ({}, {"__v1": {"name": "signal-D", "type": "virtual"}, "signal-E": "signal-E"}):
+                an = SignalAnalyzer(ProgramDiagnostics(log_level="error"), dict(tmap), referenced_signal_names=set(referenced))
+                an._allocated_signals |= set(allocated)
+                out.append({"self": an})
+    return out
